@@ -10,6 +10,7 @@ mod ops_edit;
 mod ops_c08;
 mod ops_av1;
 mod ops_cli;
+mod ops_capi;
 
 pub use util::*;
 
@@ -23,6 +24,7 @@ fn dispatch(parts: &[&str]) -> String {
         op if op.starts_with("av1.") => ops_av1::run(parts),
         op if op.starts_with("cli.") => ops_cli::run(parts),
         op if op.starts_with("c08.") => ops_c08::run(parts),
+        op if op.starts_with("capi.") || op == "rpu.ops3" => ops_capi::run(parts),
         "rpu.ops" => ops_edit::run(parts),
         op if op.starts_with("file.") => ops_file::run(parts),
         op if op.starts_with("rpu.") || op.starts_with("nalu.") => ops_rpu::run(parts),
